@@ -175,8 +175,11 @@ pub fn interval_text(pool: Vec<MVersion>) -> BoxedStrategy<String> {
                 4 => format!("={}", up),
                 _ => {
                     if i == j {
-                        // a single point: only the closed form is a valid interval
-                        if li && hi {
+                        // a single point: only the closed form is a valid interval; the three empty
+                        // spellings (`>v <=v`, `>=v <v`, `>v <v`) must not parse (the case is then discarded)
+                        if shape == 11 {
+                            format!("{}{} {}{}", if li { ">=" } else { ">" }, lo, if hi && !li { "<=" } else { "<" }, up)
+                        } else if li && hi {
                             format!(">={} <={}", lo, up)
                         } else {
                             format!("{}{}", l, lo)
